@@ -20,6 +20,14 @@ type FileWriter struct {
 	entryCount uint64
 	closed     bool
 	swampName  string // Swamp name for V3 format (written after header)
+
+	// end is the offset just past the last completely written block: the place
+	// where the next block goes. All writes are positional (WriteAt), so a
+	// failed write can never leave the file offset somewhere unexpected.
+	end int64
+	// tornTail is set when a failed block write could not be rolled back; the
+	// roll-back is retried before the next block is appended.
+	tornTail bool
 }
 
 // NewFileWriter creates a new file writer for the given path.
@@ -112,6 +120,10 @@ func (fw *FileWriter) createNewFile() error {
 		}
 	}
 
+	fw.end = fw.header.DataStartOffset()
+	fw.blockCount = 0
+	fw.entryCount = 0
+
 	return nil
 }
 
@@ -172,11 +184,7 @@ func (fw *FileWriter) openExistingFile() error {
 	fw.blockCount = fw.header.BlockCount
 	fw.entryCount = fw.header.EntryCount
 
-	// Seek to the end of the valid data for appending
-	if _, err := file.Seek(validEnd, io.SeekStart); err != nil {
-		file.Close()
-		return err
-	}
+	fw.end = validEnd
 
 	return nil
 }
@@ -278,6 +286,15 @@ func (fw *FileWriter) Flush() error {
 
 // flushLocked writes the buffer to disk (must be called with lock held)
 func (fw *FileWriter) flushLocked() error {
+	// A previous failed write may have left a partial block behind that could
+	// not be removed then; it must not stay in front of the block we append now.
+	if fw.tornTail {
+		if err := fw.file.Truncate(fw.end); err != nil {
+			return err
+		}
+		fw.tornTail = false
+	}
+
 	header, compressed, err := fw.buffer.Flush()
 	if err != nil {
 		return err
@@ -287,15 +304,20 @@ func (fw *FileWriter) flushLocked() error {
 		return nil // Nothing to flush
 	}
 
-	// Write block header
-	if _, err := fw.file.Write(header.Serialize()); err != nil {
+	// Write block header and compressed data as one positional write at the
+	// end of the valid data.
+	block := make([]byte, 0, BlockHeaderSize+len(compressed))
+	block = append(block, header.Serialize()...)
+	block = append(block, compressed...)
+	if _, err := fw.file.WriteAt(block, fw.end); err != nil {
+		// Roll back: a partial block in the middle of the file would make every
+		// later block unreadable.
+		if terr := fw.file.Truncate(fw.end); terr != nil {
+			fw.tornTail = true
+		}
 		return err
 	}
-
-	// Write compressed data
-	if _, err := fw.file.Write(compressed); err != nil {
-		return err
-	}
+	fw.end += int64(len(block))
 
 	// Update in-memory counts
 	fw.blockCount++
@@ -303,24 +325,16 @@ func (fw *FileWriter) flushLocked() error {
 
 	// Update file header on disk so EntryCount/BlockCount are always current.
 	// This avoids stale 0/0 values when the file is read before Close()/Sync().
-	// Cost: 2 seeks + 64B write per block, no fsync.
+	// Cost: one positional 64B write per block, no fsync.
+	return fw.writeHeaderLocked()
+}
+
+// writeHeaderLocked rewrites the fixed-size file header in place.
+func (fw *FileWriter) writeHeaderLocked() error {
 	fw.header.BlockCount = fw.blockCount
 	fw.header.EntryCount = fw.entryCount
-	currentPos, err := fw.file.Seek(0, io.SeekCurrent)
-	if err != nil {
-		return err
-	}
-	if _, err := fw.file.Seek(0, io.SeekStart); err != nil {
-		return err
-	}
-	if _, err := fw.file.Write(fw.header.Serialize()); err != nil {
-		return err
-	}
-	if _, err := fw.file.Seek(currentPos, io.SeekStart); err != nil {
-		return err
-	}
-
-	return nil
+	_, err := fw.file.WriteAt(fw.header.Serialize(), 0)
+	return err
 }
 
 // Sync flushes the buffer and syncs to disk
@@ -338,20 +352,7 @@ func (fw *FileWriter) Sync() error {
 	}
 
 	// Update header with current counts
-	fw.header.BlockCount = fw.blockCount
-	fw.header.EntryCount = fw.entryCount
-
-	// Seek to beginning and update header
-	if _, err := fw.file.Seek(0, io.SeekStart); err != nil {
-		return err
-	}
-
-	if _, err := fw.file.Write(fw.header.Serialize()); err != nil {
-		return err
-	}
-
-	// Seek back to end
-	if _, err := fw.file.Seek(0, io.SeekEnd); err != nil {
+	if err := fw.writeHeaderLocked(); err != nil {
 		return err
 	}
 
@@ -368,6 +369,10 @@ func (fw *FileWriter) Close() error {
 		return nil
 	}
 
+	// Whatever happens below, this writer is finished: the descriptor is
+	// released on every path, so it must never be used again.
+	fw.closed = true
+
 	// Flush remaining buffer
 	if err := fw.flushLocked(); err != nil {
 		fw.file.Close()
@@ -375,16 +380,7 @@ func (fw *FileWriter) Close() error {
 	}
 
 	// Update header
-	fw.header.BlockCount = fw.blockCount
-	fw.header.EntryCount = fw.entryCount
-
-	// Seek to beginning and update header
-	if _, err := fw.file.Seek(0, io.SeekStart); err != nil {
-		fw.file.Close()
-		return err
-	}
-
-	if _, err := fw.file.Write(fw.header.Serialize()); err != nil {
+	if err := fw.writeHeaderLocked(); err != nil {
 		fw.file.Close()
 		return err
 	}
@@ -398,7 +394,6 @@ func (fw *FileWriter) Close() error {
 		return err
 	}
 
-	fw.closed = true
 	return fw.file.Close()
 }
 
